@@ -532,7 +532,15 @@ func cmdCheck(args []string) int {
 	for k := range agg.Viol {
 		keys = append(keys, k)
 	}
-	sort.Slice(keys, func(i, j int) bool { return agg.Viol[keys[i]].FirstRun < agg.Viol[keys[j]].FirstRun })
+	// world-E cases first (their replay files are explicit operation lists),
+	// then the concurrent-hands ones
+	isY := func(k string) bool { return strings.HasPrefix(agg.Viol[k].Sig, "concurrent-hands: ") }
+	sort.Slice(keys, func(i, j int) bool {
+		if isY(keys[i]) != isY(keys[j]) {
+			return !isY(keys[i])
+		}
+		return agg.Viol[keys[i]].FirstRun < agg.Viol[keys[j]].FirstRun
+	})
 	var knownHit []string
 	var fresh []*sim.VioRec
 	for _, k := range keys {
